@@ -53,6 +53,7 @@ type Engine struct {
 	specDefs   []*SpecDef
 	headerCache map[string]string
 	compOwner   map[string]string
+	dirty       map[*ssa.Function]map[string]bool
 	notCtorOnly map[string]bool
 }
 
@@ -70,7 +71,7 @@ func newEngine(repo string) (*Engine, error) {
 	e := &Engine{repoDir: repo, sorts: newSorts(), funcs: map[string]*ssa.Function{}, fnames: map[*ssa.Function]string{},
 		contracts: map[string]*Contract{}, ifaceCons: map[string]*Contract{}, modsets: map[*ssa.Function]map[string]bool{},
 		strConsts: map[string]string{}, files: map[string]*ast.File{}, srcCache: map[string][]byte{}, compSorts: map[string]Sort{},
-		rules: map[string]*Rule{}, headerCache: map[string]string{}}
+		rules: map[string]*Rule{}, headerCache: map[string]string{}, dirty: map[*ssa.Function]map[string]bool{}}
 	scratch, err := os.MkdirTemp("", "bornovc-")
 	if err != nil {
 		return nil, err
